@@ -87,6 +87,13 @@ func (h *RetryHandler) ExecuteWithRetry(
 			return lastErr
 		}
 
+		// A failure after the response has started can never be retried: status, headers or
+		// body bytes of this attempt have already been handed to the client, and a second
+		// attempt would append another backend's answer to them.
+		if IsResponseStarted(lastErr) {
+			return lastErr
+		}
+
 		// Handle connection error and retry logic
 		availableEndpoints = h.handleConnectionFailure(ctx, endpoint, lastErr, attemptCount, availableEndpoints, maxRetries)
 	}
@@ -184,6 +191,31 @@ func (h *RetryHandler) buildFinalError(availableEndpoints []*domain.Endpoint, ma
 		return fmt.Errorf("all endpoints failed with connection errors: %w", lastErr)
 	}
 	return fmt.Errorf("max attempts (%d) reached: %w", maxRetries, lastErr)
+}
+
+// ResponseStartedError marks a proxy failure that happened after the backend's response had
+// begun to be relayed to the client (mid-stream reset, truncated body, ...). The underlying
+// error is often a net.Error, so without this marker it would look like a retryable
+// connection failure.
+type ResponseStartedError struct {
+	Err error
+}
+
+func (e *ResponseStartedError) Error() string { return e.Err.Error() }
+func (e *ResponseStartedError) Unwrap() error { return e.Err }
+
+// MarkResponseStarted wraps err so that the retry handler will not re-dispatch the request.
+func MarkResponseStarted(err error) error {
+	if err == nil {
+		return nil
+	}
+	return &ResponseStartedError{Err: err}
+}
+
+// IsResponseStarted reports whether err happened after the response had started.
+func IsResponseStarted(err error) bool {
+	var rs *ResponseStartedError
+	return errors.As(err, &rs)
 }
 
 // IsConnectionError identifies transient network errors suitable for retry
